@@ -443,23 +443,23 @@ func buildReal(c *Case) (rp *realProg, defPanic string) {
 
 // RealOut is what the real library did on a case.
 type RealOut struct {
-	DefPanic string
-	Panic    string
-	Timeout  bool
-	HasErr   bool
-	ErrText  string
+	DefPanic     string
+	Panic        string
+	Timeout      bool
+	HasErr       bool
+	ErrText      string
 	ErrIsParsing bool
-	Rem      []string
-	RemNil   bool
-	Writer   string            // Writer content after Parse
-	P        map[string]string // p<oid>, n<h>.<key>
+	Rem          []string
+	RemNil       bool
+	Writer       string            // Writer content after Parse
+	P            map[string]string // p<oid>, n<h>.<key>
 	// dispatch
-	DErrText string
-	DHasErr  bool
-	DHelp    bool // errors.Is(err, ErrorHelpCalled)
+	DErrText   string
+	DHasErr    bool
+	DHelp      bool // errors.Is(err, ErrorHelpCalled)
 	DIsParsing bool
-	DWriter  string
-	Calls    []fnCall
+	DWriter    string
+	Calls      []fnCall
 	// Help()
 	HelpText string
 	// oracles on the implementation alone
@@ -469,6 +469,7 @@ type RealOut struct {
 	// completion
 	ExitCodes []int
 	Stdout    string
+	SetValRes []string // ok | notfound | err:<text> per SetValue call
 }
 
 func setEnv(c *Case) func() {
@@ -562,6 +563,22 @@ func runRealInner(c *Case, out *RealOut) {
 	if err != nil {
 		out.HasErr, out.ErrText = true, err.Error()
 		out.ErrIsParsing = errors.Is(err, getoptions.ErrorParsing)
+	}
+	if err == nil {
+		for _, sv := range c.SetVals {
+			res := "none"
+			if sv.H < len(rp.handles) {
+				switch e := rp.handles[sv.H].SetValue(sv.Name, sv.Vals...); {
+				case e == nil:
+					res = "ok"
+				case errors.Is(e, getoptions.ErrorNotFound):
+					res = "notfound"
+				default:
+					res = "err:" + e.Error()
+				}
+			}
+			out.SetValRes = append(out.SetValRes, res)
+		}
 	}
 	out.P = map[string]string{}
 	for i, h := range rp.holders {
